@@ -14,6 +14,7 @@ SPECIFICATION Spec
 CHECK_DEADLOCK FALSE
 INVARIANTS
   HistoryIndependent
+  UndeclIndependent
   RepairedHistoryIndependent
   MirrorAlways
   NoDangling
